@@ -272,10 +272,12 @@ class history {
       rep().nontrivial(vh::hash_combine(vh::hash_str(std::string(what) + tag), kth));
       rep().count(std::string("surfaced.") + what + "." + tag);
       if (wrong_type) { fail(std::string(what) + "/wrong-exception-type", "an injected allocation failure did not reach the caller as std::bad_alloc", json::object().set("key", vh::hex(k)).set("k", kth)); return false; }
+      // olc_db: first the read-only sweep under the scheduler, which turns "a node left locked or obsolete-but-linked" into a
+      // logical deadlock / livelock verdict; the snapshot below scans the index too and would simply hang on it
+      olc_lock_sweep(k);
       const snapshot s1 = capture(*dbp);
       const auto d = s0.diff(s1);
       if (!d.empty()) { fail(std::string(what) + "/state-changed/" + d, "after a failed operation the index is observably different: " + d, json::object().set("key", vh::hex(k)).set("k", kth)); return false; }
-      olc_lock_sweep(k);
     }
     fail(std::string(what) + "/never-completes", "the operation still fails with the 64th allocation failing; allocation count unbounded?", json::object().set("key", vh::hex(k)));
     return false;
